@@ -192,6 +192,8 @@ fn gen(seed: u64, tier: Tier) -> Plan6 {
     let bits = match rng.below(40) {
         0 => 64,
         1 => if tier == Tier::Thorough { 320 } else { 65 },
+        // around the machine-word boundaries of any packed prefix representation
+        2 => *rng.pick(&[63usize, 66, 72, 127, 128, 129, 130]),
         _ => 1 + rng.usize_below(12),
     };
     let vtype = if rng.chance(1, 2) { "plain" } else { "poplar" };
@@ -232,7 +234,12 @@ fn gen(seed: u64, tier: Tier) -> Plan6 {
         let n = 1 + rng.usize_below(40);
         let mut recent: Vec<String> = Vec::new();
         for _ in 0..n {
-            let l = 1 + rng.usize_below(bits);
+            let mut l = 1 + rng.usize_below(bits);
+            if bits > 16 && rng.chance(1, 2) {
+                // long instances: prefix lengths at and around the word boundaries and the leaf
+                let c = *rng.pick(&[31usize, 32, 33, 63, 64, 65, 66, 127, 128, 129, usize::MAX - 1, usize::MAX]);
+                l = if c == usize::MAX { bits } else if c == usize::MAX - 1 { bits - 1 } else { c.min(bits) };
+            }
             let p: String = match rng.below(8) {
                 0 | 1 | 2 => input[..l].to_string(),
                 3 => {
@@ -591,7 +598,7 @@ impl Check for Check06 {
         out.into_iter().map(|x| serde_json::to_value(x).unwrap()).collect()
     }
     fn rule(&self) -> String {
-        "seeded IDPF instances (bits 1..12, rarely 64/65/320; plain Field64/Field255 values and Poplar1 value pairs; arbitrary programmed values) with evaluation histories of 1..80 requests per run sharing one cache per party: on-path prefixes, siblings, divergence at every depth, repeats, longer-then-shorter, extensions, or all prefixes of all lengths when bits <= 6 in a seeded order; caches: NoCache, HashMapCache, RingBufferCache(0..8), FaultyCache (bounded, dropping, randomly evicting), optionally replaced by a fresh one mid-history; distinct = distinct (value type, bits, cache kinds and capacities, history length class, swap) signatures".into()
+        "seeded IDPF instances (bits 1..12, sometimes 63..66 / 72 / 127..130 / 320 with prefix lengths at the word boundaries; plain Field64/Field255 values and Poplar1 value pairs; arbitrary programmed values) with evaluation histories of 1..80 requests per run sharing one cache per party: on-path prefixes, siblings, divergence at every depth, repeats, longer-then-shorter, extensions, or all prefixes of all lengths when bits <= 6 in a seeded order; caches: NoCache, HashMapCache, RingBufferCache(0..8), FaultyCache (bounded, dropping, randomly evicting), optionally replaced by a fresh one mid-history; distinct = distinct (value type, bits, cache kinds and capacities, history length class, swap) signatures".into()
     }
     fn assumptions(&self) -> Vec<String> {
         vec!["Idpf::gen randomness is the harness tape behind the prio_verif hook".into(), "FaultyCache never fabricates an entry (that would break the IdpfCache contract, not the library)".into()]
